@@ -179,6 +179,48 @@ theorem sniffLoop_spec (nm : List Nat) (off : List (Nat × Nat)) (dl : Nat) :
       simp only [h1', Bool.false_eq_true, ↓reduceIte]
       exact ⟨⟨rfl, rfl, rfl, Nat.le_refl _, fun _ _ h => h, fun h => h⟩, by simp⟩
 
+/-! ### `Peek` succeeds only with the bytes really there, and never beyond the reader's size -/
+
+theorem peekLoop_ok_bounds (dl : Option Nat) (need : Nat) :
+    ∀ (fuel : Nat) (s : Script) (now : Nat) (buf : Bytes), buf.length ≤ bufioSize →
+      ((peekLoop dl need fuel s now buf).2.2.1.length ≤ bufioSize) ∧
+      (∀ e, (peekLoop dl need fuel s now buf).1 = .fail e → True) ∧
+      (match (peekLoop dl need fuel s now buf).1 with
+        | .ok => need ≤ (peekLoop dl need fuel s now buf).2.2.1.length
+        | _ => True) := by
+  intro fuel
+  induction fuel with
+  | zero => intro s now buf hb; simp [peekLoop, hb]
+  | succ f ih =>
+    intro s now buf hb
+    rw [peekLoop]
+    by_cases h1 : need ≤ buf.length
+    · simp [h1, hb]
+    · simp only [h1, ↓reduceIte]
+      by_cases h2 : bufioSize ≤ buf.length
+      · simp [h2, hb]
+      · simp only [h2, ↓reduceIte]
+        cases he : (s.readAt now dl (bufioSize - buf.length)).err with
+        | none =>
+          simp only [he]
+          have hlen : (buf ++ (s.readAt now dl (bufioSize - buf.length)).data).length ≤ bufioSize := by
+            have : (s.readAt now dl (bufioSize - buf.length)).data.length ≤ bufioSize - buf.length := by
+              unfold Script.readAt
+              cases hev : s.evs with
+              | nil => simp only; split <;> simp
+              | cons e es =>
+                simp only
+                split
+                · simp
+                · split
+                  · simp only; omega
+                  · simp only [List.length_take]; omega
+            rw [List.length_append]; omega
+          exact ih _ _ _ hlen
+        | eof => simp [he, hb]
+        | reset => simp [he, hb]
+        | timeout => simp [he, hb]
+
 /-! ### the detection front-end -/
 
 /-- everything the relay phase needs to know about what detection did -/
